@@ -663,6 +663,9 @@ func (x *ExtendedReport) Unmarshal(b []byte) error {
 		// We need to limit the amount of data available to
 		// this block to the actual length of the block
 		blockLength := (int(xrHeader.BlockLength) + 1) * 4
+		if blockLength > len(buffer.bytes) {
+			return errPacketTooShort
+		}
 		blockBuffer := buffer.split(blockLength)
 		err = blockBuffer.read(block)
 		if err != nil {
